@@ -100,10 +100,27 @@ func ParseContractFile(path string) (*ContractFile, error) {
 		ls = append(ls, ln{strings.TrimSpace(body), i + 1})
 	}
 	curLoop := -1
+	macros := map[string]macroDef{}
+	for _, l := range ls {
+		if strings.HasPrefix(l.text, "macro ") {
+			m := macroRe.FindStringSubmatch(l.text)
+			if m == nil {
+				return nil, fmt.Errorf("%s:%d: bad macro definition", path, l.no)
+			}
+			macros[m[1]] = macroDef{params: splitNames(m[2]), body: m[3]}
+		}
+	}
 	for _, l := range ls {
 		t := l.text
-		if t == "" {
+		if t == "" || strings.HasPrefix(t, "macro ") {
 			continue
+		}
+		if !strings.HasPrefix(t, "func") {
+			var err error
+			t, err = expandMacros(t, macros, 0)
+			if err != nil {
+				return nil, fmt.Errorf("%s:%d: %v", path, l.no, err)
+			}
 		}
 		if strings.HasPrefix(t, "func") {
 			m := headRe.FindStringSubmatch(t)
@@ -170,6 +187,10 @@ func ParseContractFile(path string) (*ContractFile, error) {
 			return nil, fmt.Errorf("%s:%d: cannot parse clause %q", path, l.no, t)
 		}
 		kind, label, rest := m[1], m[2], strings.TrimSpace(m[3])
+		if (kind == "emits" || kind == "calls") && rest == "" {
+			// "calls []": the bracket is the (empty) list, not a label
+			rest, label = "["+label+"]", ""
+		}
 		switch kind {
 		case "trusted":
 			cur.Trusted = true
@@ -218,6 +239,81 @@ func ParseContractFile(path string) (*ContractFile, error) {
 		cur.Clauses = append(cur.Clauses, cl)
 	}
 	return out, nil
+}
+
+type macroDef struct {
+	params []string
+	body   string
+}
+
+var macroRe = regexp.MustCompile(`^macro\s+([A-Za-z_][A-Za-z0-9_]*)\s*\(([^)]*)\)\s*:=\s*(.*)$`)
+
+func expandMacros(t string, macros map[string]macroDef, depth int) (string, error) {
+	if depth > 8 {
+		return "", fmt.Errorf("macro expansion too deep")
+	}
+	for name, def := range macros {
+		for {
+			idx := findCall(t, name)
+			if idx < 0 {
+				break
+			}
+			// parse balanced argument list
+			start := idx + len(name) + 1
+			d := 1
+			j := start
+			for j < len(t) && d > 0 {
+				switch t[j] {
+				case '(', '[', '{':
+					d++
+				case ')', ']', '}':
+					d--
+				}
+				j++
+			}
+			if d != 0 {
+				return "", fmt.Errorf("unbalanced macro call %s", name)
+			}
+			argText := t[start : j-1]
+			var args []string
+			if strings.TrimSpace(argText) != "" {
+				args = splitTop(argText, ',')
+			}
+			if len(args) != len(def.params) {
+				return "", fmt.Errorf("macro %s takes %d arguments, got %d", name, len(def.params), len(args))
+			}
+			body := def.body
+			for i, p := range def.params {
+				re := regexp.MustCompile(`\b` + regexp.QuoteMeta(p) + `\b`)
+				body = re.ReplaceAllLiteralString(body, "\x00"+fmt.Sprint(i)+"\x00")
+			}
+			for i, a := range args {
+				body = strings.ReplaceAll(body, "\x00"+fmt.Sprint(i)+"\x00", "("+a+")")
+			}
+			exp, err := expandMacros(body, macros, depth+1)
+			if err != nil {
+				return "", err
+			}
+			t = t[:idx] + "(" + exp + ")" + t[j:]
+		}
+	}
+	return t, nil
+}
+
+// findCall finds `name(` at an identifier boundary.
+func findCall(t, name string) int {
+	from := 0
+	for {
+		i := strings.Index(t[from:], name+"(")
+		if i < 0 {
+			return -1
+		}
+		i += from
+		if i == 0 || !(unicode.IsLetter(rune(t[i-1])) || unicode.IsDigit(rune(t[i-1])) || t[i-1] == '_' || t[i-1] == '.') {
+			return i
+		}
+		from = i + 1
+	}
 }
 
 func splitNames(s string) []string {
